@@ -194,16 +194,21 @@ def name_language(ctx, var_pat, str_pat, maxlen):
     n = z3.String("name")
     L_var, L_str = rxsmt.lang(var_pat), rxsmt.lang(str_pat)
     for kind, lang, suffix in (("num", L_var, ""), ("str", L_str, "$")):
-        whole = z3.Concat(n, z3.StringVal(suffix)) if suffix else n
-        ref = [z3.InRe(n, ident), z3.Not(z3.InRe(whole, starts_kw)), z3.Length(n) <= maxlen]
+        # the whole spelling (name plus `$`) is the solver variable: a concatenation term inside the complemented union
+        # of keyword prefixes left z3 without an answer, the same constraints on one variable are decided at once
+        whole = n
+        shape = z3.Concat(ident, z3.Re(suffix)) if suffix else ident
+        ref = [z3.InRe(n, shape), z3.Not(z3.InRe(whole, starts_kw)), z3.Length(n) <= maxlen + len(suffix)]
         for direction, query in (("reference-name-not-matched", ref + [z3.Not(z3.InRe(whole, lang))]),
-                                 ("matched-but-not-a-name", [z3.InRe(whole, lang), z3.Length(n) <= maxlen, z3.Not(z3.And(*ref[:2]))])):
+                                 ("matched-but-not-a-name", [z3.InRe(whole, lang), z3.Length(n) <= maxlen + len(suffix), z3.Not(z3.And(*ref[:2]))])):
             ctx.stats["obligations"] += 1
             v, m = smt.check(query, 8000, True)
             ctx.stats[v] += 1
             ctx.sample({"query": f"name language ({kind}): {direction}", "verdict": v})
             if v == "sat":
                 nm = rxsmt.z3str(m.eval(n, True).as_string())
+                if suffix and nm.endswith(suffix):
+                    nm = nm[: -len(suffix)]
                 carrier = nm + suffix
                 o = classify(f"10 {carrier}=" + ('"X"' if suffix else "1") + "\n")
                 ctx.stats["traces_validated_against_impl"] += 1
